@@ -114,7 +114,7 @@ var idealisations = []string{
 
 // runProof generates and discharges all obligations tagged with prop.
 func runProof(eng *Engine, prop string, tier string, kfs []KnownFinding, replayDir string) (*proofPart, []string) {
-	quickSec, raceSec := 8, 25
+	quickSec, raceSec := 8, 40
 	if tier == "thorough" {
 		quickSec, raceSec = 15, 90
 	}
